@@ -1226,11 +1226,14 @@ class BytecodeInterpreter(Interpreter):
         # call and change what the next one computes.  Each call starts from the
         # captured value again -- in a namespace of its own, so that another
         # evaluation of the same function (nested through a primitive, or on
-        # another thread) does not see this one's stores.
+        # another thread) does not see this one's stores.  Numbers, booleans
+        # and contexts are read again too: left as the first evaluation found
+        # them, a name rebound since would make the result depend on whether
+        # the function had been evaluated before.
         captured = {
             str(var): to_value(func.env[str(var)])
             for var in func.ast.free_vars
-            if isinstance(fn.__globals__.get(str(var)), list | tuple)
+            if not isinstance(fn.__globals__.get(str(var)), Foreign)
         }
         if captured:
             call = types.FunctionType(
